@@ -10,7 +10,11 @@
 
 #ifdef VC_GRID
 /* bounded variant: every input is one of the 5 values k/4 (stated bound) */
+#if VC_GRID == 3
+static int unit (float f) { return f == 0.0f || f == 0.5f || f == 1.0f; }
+#else
 static int unit (float f) { return f == 0.0f || f == 0.25f || f == 0.5f || f == 0.75f || f == 1.0f; }
+#endif
 #else
 static int unit (float f) { return f >= 0.0f && f <= 1.0f; }
 #endif
